@@ -17,7 +17,8 @@ func init() {
 		decided: "exit discipline: every error source of cli.Run is tested, its failure edge writes a diagnostic to stderr and returns a non-zero constant, `return 0` is only reachable with every dominating error source known nil, and main passes Run's result to os.Exit unchanged; argument fidelity: the program text handed to the interpreter is the -f file's bytes or the first argument unchanged, the file list is the remaining arguments in order, each opened once and handed over as the reader itself (no read-ahead wrapper), stdin as os.Stdin under the name <stdin>, the selectors are the flag accumulator unchanged, output goes to os.Stdout; -o: one JSON string, obtained after a successful run, written as data to stdout or to a truncated file, refused for several inputs; inside the interpreter the roots selected for one JSON value are collected in a list created for that value." +
 			" Every Evaluator is built by the one constructor, which itself installs the runtime and program functions (a selector's evaluator knows what the program's does); the decode loop ends on io.EOF alone; GetRootJson guards the nil root." +
 			" Every successfully opened path and every successfully evaluated selector contributes an input / a root on every path (no way round the append)." +
-			" What the constructor installs is recognised by effect (builtin names, the program's functions, the rule lists), each on every path and in that order; the stdin input is built only when no file was named.",
+			" What the constructor installs is recognised by effect (builtin names, the program's functions, the rule lists), each on every path and in that order; the stdin input is built only when no file was named." +
+			" After a successful Decode the next one is reached only through the loop over the selected roots.",
 		notDecided: "the README's `-r E` ≡ `BEGINFILE { $ = E }` equivalence as such (a relation between two evaluator runs); stdin-vs-file equivalence beyond `the same reader interface is passed through`.",
 	})
 }
